@@ -179,11 +179,12 @@ def run_min(
     trace: Optional[Trace] = None,
     jac_style: str = "fresh",
     fun_style: str = "scalar",
+    check_finite: bool = True,
 ) -> Trace:
     import lbfgsb
 
     tr = trace if trace is not None else Trace()
-    fun, jac, holder = make_closures(prob, tr, fault=fault, obj=obj, gate=gate, jac_style=jac_style, fun_style=fun_style)
+    fun, jac, holder = make_closures(prob, tr, fault=fault, obj=obj, gate=gate, jac_style=jac_style, fun_style=fun_style, check_finite=check_finite)
     tr.holder = holder
     kw: Dict[str, Any] = {}
     kw["x0"] = np.array(prob.x0, copy=True) if x0 is None else x0
